@@ -136,12 +136,12 @@ def c01(res):
     rng = random.Random(seed() * 1000 + 1)
     q = res.tier == "quick"
     graphs = gg.f1_corpus(rng, 500 if q else None)
-    graphs += [force_sentinel(gg.random_graph(rng, "F2-%d" % i)) for i in range(250 if q else 4000)]
-    graphs += [force_sentinel(gg.random_forest(rng, "F3-%d" % i)) for i in range(60 if q else 800)]
-    graphs += [force_sentinel(gg.random_graph(rng, "F2b-%d" % i, 9, 14)) for i in range(40 if q else 600)]
+    graphs += [force_sentinel(gg.random_graph(rng, "F2-%d" % i)) for i in range(250 if q else 2500)]
+    graphs += [force_sentinel(gg.random_forest(rng, "F3-%d" % i)) for i in range(60 if q else 600)]
+    graphs += [force_sentinel(gg.random_graph(rng, "F2b-%d" % i, 9, 14)) for i in range(40 if q else 500)]
     # property lists WITHOUT an always-true sentinel: what keeps the checker exploring is an eventually-property that
     # never gets a counterexample (it holds everywhere), possibly next to properties that are discovered at once
-    for i in range(200 if q else 3000):
+    for i in range(200 if q else 1500):
         g = gg.random_graph(rng, "F2e-%d" % i, 3, 10, sentinel=False)
         n = g["n"]
         props = [dict(kind="eventually", name="ev", sat=list(range(1, n + 1)))]
@@ -153,7 +153,11 @@ def c01(res):
         graphs.append(g)
     threads = [1, 2, 3] if q else [1, 2, 3, 4, 8, 16]
 
+    nf1 = len([g for g in graphs if g["id"].startswith("F1-")])
+
     def cfgs(i, g):
+        if not q and g["id"].startswith("F1-"):
+            return std_cfgs([1]) + ([gg.base_cfg("bfs", 2), gg.base_cfg("dfs", 3)] if i % 5 == 0 else [])
         c = std_cfgs(threads if i % 4 == 0 else threads[:2])
         return c
     res.rule = ("graphs: F1 = all graphs with <=2 nodes/<=2 actions x inits x boundaries (sampled in quick), F2 = seeded "
@@ -185,16 +189,16 @@ def c01(res):
 def c02(res):
     rng = random.Random(seed() * 1000 + 2)
     q = res.tier == "quick"
-    graphs = gg.f1_corpus(rng, 400 if q else None)
+    graphs = gg.f1_corpus(rng, 400 if q else 9000)
     graphs = [g for g in graphs if all(p["kind"] != "eventually" for p in g["props"])]
-    n2 = 400 if q else 5000
+    n2 = 400 if q else 4000
     for i in range(n2):
         g = gg.random_graph(rng, "F2-%d" % i, 3, 9, nprops=rng.randint(1, 4), sentinel=rng.random() < 0.6)
         for p in g["props"]:
             if p["kind"] == "eventually":
                 p["kind"] = rng.choice(["always", "sometimes"])
         graphs.append(g)
-    threads = [1, 2] if q else [1, 2, 4, 8]
+    threads = [1, 2] if q else [1, 2, 4]
     res.rule = ("graphs labelled by 1-5 always/sometimes properties (with and without a never-discovered sentinel, so both "
                 "'frontier exhausted' and 'all properties discovered' endings occur) x {bfs, dfs, on-demand} x threads; "
                 "verdicts judged against Violated/Witnessed over Reach(g); assert_properties() outcome judged too")
@@ -238,12 +242,12 @@ def sym_cfgs(rng, g):
 def c03(res):
     rng = random.Random(seed() * 1000 + 3)
     q = res.tier == "quick"
-    graphs = gg.f1_corpus(rng, 300 if q else None)
-    graphs += [gg.random_graph(rng, "F2-%d" % i, 3, 9) for i in range(400 if q else 5000)]
-    graphs += [gg.random_forest(rng, "F3-%d" % i) for i in range(100 if q else 1500)]
+    graphs = gg.f1_corpus(rng, 300 if q else 6000)
+    graphs += [gg.random_graph(rng, "F2-%d" % i, 3, 9) for i in range(400 if q else 4000)]
+    graphs += [gg.random_forest(rng, "F3-%d" % i) for i in range(100 if q else 1200)]
     threads = [1, 2] if q else [1, 2, 4]
     nplain = len(graphs)
-    graphs += [gg.symmetric_graph(rng, "F5-%d" % i, eventually=True) for i in range(150 if q else 2500)]
+    graphs += [gg.symmetric_graph(rng, "F5-%d" % i, eventually=True) for i in range(150 if q else 1500)]
     res.rule = ("all five strategies (simulation with seeds, 1-2 threads) x finish conditions x targets x depth limits on "
                 "graphs with 1-5 mixed properties; every path returned by discoveries() judged by Graph!ValidWitness "
                 "(+ its action list re-executed on the table)")
@@ -258,10 +262,9 @@ def c11(res):
     rng = random.Random(seed() * 1000 + 11)
     q = res.tier == "quick"
     graphs = [g for g in gg.f1_corpus(rng, None) if any(p["kind"] == "eventually" for p in g["props"])]
-    if q:
-        graphs = rng.sample(graphs, 300)
-    graphs += [gg.random_forest(rng, "F3-%d" % i) for i in range(300 if q else 4000)]
-    for i in range(250 if q else 3000):
+    graphs = rng.sample(graphs, 300 if q else 5000)
+    graphs += [gg.random_forest(rng, "F3-%d" % i) for i in range(300 if q else 3000)]
+    for i in range(250 if q else 2500):
         g = gg.random_graph(rng, "F2-%d" % i, 3, 9)
         if not any(p["kind"] == "eventually" for p in g["props"]):
             g["props"][0]["kind"] = "eventually"
@@ -269,7 +272,7 @@ def c11(res):
     threads = [1, 2] if q else [1, 2, 4]
 
     nplain = len(graphs)
-    graphs += [gg.symmetric_graph(rng, "F5-%d" % i, eventually=True) for i in range(150 if q else 2500)]
+    graphs += [gg.symmetric_graph(rng, "F5-%d" % i, eventually=True) for i in range(150 if q else 1500)]
 
     def cfgs(i, g):
         if i >= nplain:
@@ -287,7 +290,7 @@ def c13(res):
     rng = random.Random(seed() * 1000 + 13)
     q = res.tier == "quick"
     graphs = gg.f1_corpus(rng, 400 if q else None)
-    graphs += [gg.random_graph(rng, "F2-%d" % i, 4, 12) for i in range(600 if q else 8000)]
+    graphs += [gg.random_graph(rng, "F2-%d" % i, 4, 12) for i in range(600 if q else 6000)]
     graphs += [gg.random_forest(rng, "F3-%d" % i, 4, 12) for i in range(100 if q else 1000)]
 
     def cfgs(i, g):
@@ -323,7 +326,7 @@ def c10(res):
         systems.append(s)
     fam_actor.run_family(res, "C10b", systems, ["representative"], [], real_counts=False)
     # (c) symmetric graphs: DFS with symmetry vs the full graph
-    graphs = [gg.symmetric_graph(rng, "F5-%d" % i) for i in range(250 if q else 4000)]
+    graphs = [gg.symmetric_graph(rng, "F5-%d" % i) for i in range(250 if q else 3000)]
 
     def cfgs(i, g):
         c = [gg.base_cfg("dfs", t, symmetry=True) for t in ((1, 2) if q else (1, 2, 4))]
